@@ -258,6 +258,7 @@ func InterpReplay(ld *Loaded, base *sym.State, j Job, v sym.Violation, prop stri
 	if j.H.Loop > 0 {
 		r.LoopBound = j.H.Loop
 	}
+	r.BlockIsViolation = j.H.NoBlock
 	for _, n := range v.Nondets {
 		var val uint64
 		if n.T.IsConst() {
